@@ -487,18 +487,28 @@ def kymoTimes (ranges : List (Int × Int)) : Except Err (Int × Int × Int) :=
       else .ok (lt, ex, a.1)
   | _ => .error .index
 
-def addRows (a b : List Int) : List Int := List.zipWith (· + ·) a b
+/-- The `reduce` argument of `to_kymo` for the NumPy reducers that combine the rows one after the other:
+    `np.sum` (the default), `np.max`, `np.min`. -/
+inductive Reduce where
+  | sum
+  | max
+  | min
+deriving Repr, DecidableEq
 
-/-- `np.sum(window, axis=0)` of the rows of one frame's window: the rows are added up one after the other. -/
-def sumRows : List (List Int) → List Int
+def Reduce.op : Reduce → Int → Int → Int
+  | .sum, a, b => a + b
+  | .max, a, b => if a < b then b else a
+  | .min, a, b => if b < a then b else a
+
+/-- `reduce(window, axis=0)` of the rows of one frame's window: the rows are combined one after the other. -/
+def foldRows (red : Reduce) : List (List Int) → List Int
   | [] => []
-  | r :: rs => rs.foldl addRows r
+  | r :: rs => rs.foldl (List.zipWith red.op) r
 
-/-- One line of the kymograph from the window of one frame: `reduce(image, axis=1)` (`np.sum`, the default of
-    `to_kymo`) when `half_window > 0`; for `half_window = 0` nothing is reduced, the single row is what
-    `get_image()`'s `squeeze` leaves. -/
-def kymoLine (w : Int) (win : List (List Int)) : List Int :=
-  if w > 0 then sumRows win else win.headD []
+/-- One line of the kymograph from the window of one frame: `reduce(image, axis=1)` when `half_window > 0`; for
+    `half_window = 0` nothing is reduced, the single row is what `get_image()`'s `squeeze` leaves. -/
+def kymoLine (red : Reduce) (w : Int) (win : List (List Int)) : List Int :=
+  if w > 0 then foldRows red win else win.headD []
 
 /-- `np.swapaxes(image, 0, 1)`: `(time, x) → (x, time)` for `n` positions. -/
 def swapAxes (n : Nat) (lines : List (List Int)) : List (List Int) :=
@@ -512,10 +522,10 @@ structure Kymo where
   image : List (List Int)
 deriving Repr, DecidableEq
 
-/-- `ImageStack.to_kymo(half_window = w)` for one colour channel.  `raw p` is the stored image of page `p`,
+/-- `ImageStack.to_kymo(half_window = w, reduce = red)` for one colour channel.  `raw p` is the stored image of page `p`,
     `ends` the floors of the processed tether ends (`none`: no tether); `none` = a visible frame is not a page. -/
 def Stack.toKymo (s : Stack) (pages : List Page) (raw : Int → List (List Int))
-    (ends : Option (Int × Int × Int × Int)) (w : Int) : Option (Except Err Kymo) := do
+    (ends : Option (Int × Int × Int × Int)) (w : Int) (red : Reduce := .sum) : Option (Except Err Kymo) := do
   let r ← s.ranges pages false false
   match kymoTimes r with
   | .error e => some (.error e)
@@ -526,7 +536,7 @@ def Stack.toKymo (s : Stack) (pages : List Page) (raw : Int → List (List Int))
       match s.kymoStack x1 y1 x2 y2 w with
       | .error e => some (.error e)
       | .ok ks =>
-        let lines := ks.frames.map fun p => kymoLine w (ks.roi.apply (raw p))
+        let lines := ks.frames.map fun p => kymoLine red w (ks.roi.apply (raw p))
         some (.ok ⟨lt, ex, st, swapAxes ks.roi.width.toNat lines⟩)
 
 /-- The synthetic pages of the harness (`builders_tiff.pixel_value`): sample `ch` of `C` of pixel `(row, col)` of page
@@ -668,7 +678,7 @@ def points? (s : String) : Option (List (Pt Float)) :=
       `len starts` pages of `h × w` pixels, answer the final state (or the first error)
   `c07.image <C> <h> <w> [starts] [stops] [expStops] <legacy> op…`   the program as for `c07.run` on pages of the
       harness encoding; answers the pixel values of `get_image()` per stored sample: `image <frame/frame/…>|<sample 1>|…`
-  `c07.kymo <C> <h> <w> [starts] [stops] [expStops] <legacy> op… k,<hw>`   the program as for `c07.run` (pages of the
+  `c07.kymo <C> <h> <w> [starts] [stops] [expStops] <legacy> op… k,<hw>[,sum|max|min]`   the program as for `c07.run` (pages of the
       harness encoding `encPage`, `C` samples per pixel), then `to_kymo(half_window = hw)`:
       `kymo <line time ns> <exposure ns> <start> <image[x][t] of sample 0>|<sample 1>|…` or the error
   `c07.indices a b c n`     `slice(a,b,c).indices(n)` start/stop (self-test of the Python description)
@@ -711,15 +721,18 @@ def handle : List String → Option String
     let nch ← nat? nch; let h ← nat? h; let w ← nat? w
     let pages ← pages? starts stops exps
     let _ ← bool? legacy
-    let hw ← match (prog.getLast?).map (·.splitOn ",") with
-      | some ["k", hw] => int? hw
+    let (hw, red) ← match (prog.getLast?).map (·.splitOn ",") with
+      | some ["k", hw] => (int? hw).map fun v => (v, Reduce.sum)
+      | some ["k", hw, "sum"] => (int? hw).map fun v => (v, Reduce.sum)
+      | some ["k", hw, "max"] => (int? hw).map fun v => (v, Reduce.max)
+      | some ["k", hw, "min"] => (int? hw).map fun v => (v, Reduce.min)
       | _ => none
     let t0 : TStack := ⟨⟨0, pages.length, 1, ⟨0, w, 0, h⟩⟩, Tether.new 0.0 0.0 none⟩
     match ← runProg pages t0 prog.dropLast with
     | .error e => some e.show
     | .ok t =>
       let ends := t.teth.endsProcessed.map fun (a, b) => (floorInt a.x, floorInt a.y, floorInt b.x, floorInt b.y)
-      let ks ← (List.range nch).mapM fun ch => t.stk.toKymo pages (encPage h w nch ch) ends hw
+      let ks ← (List.range nch).mapM fun ch => t.stk.toKymo pages (encPage h w nch ch) ends hw red
       match ks with
       | [] => none
       | .error e :: _ => some e.show
